@@ -719,6 +719,9 @@ func (fr *frame) run() {
 		jumped := false
 		for _, ins := range blk.Instrs[nphi:] {
 			in.steps++
+			if in.steps&1023 == 0 && memExceeded.Load() {
+				in.unsupported("memory bound of the engine reached (heap above %d GiB); the run is abandoned rather than left to the OOM killer", memLimitGiB)
+			}
 			if in.steps > in.opts.MaxSteps {
 				panic(&pathEnd{kind: "steps", msg: "step limit"})
 			}
